@@ -12,8 +12,7 @@ func TestDebugEnum(t *testing.T) {
 	if os.Getenv("VERIF_DEBUG") == "" {
 		t.Skip()
 	}
-	prog := c06Catalogue()[1]
-	prog.Clients = [][]COp{prog.Clients[2], prog.Clients[0], prog.Clients[1]}
+	prog := c08Catalogue()[3]
 	var cands []int
 	CountCands = &cands
 	run := Execute(prog, false)
@@ -25,7 +24,7 @@ func TestDebugEnum(t *testing.T) {
 			cs.Sched = Schedule{Preempt: [][2]int{{k, c}}}
 			run := Execute(cs, false)
 			for _, h := range run.Hist {
-				if h.K == "get" && h.Err != "ok" && h.Client >= 0 {
+				if h.K == "get" && h.Err != "ok" && h.Client >= 0 || os.Getenv("VERIF_DEBUG") == "all" && h.Client >= 0 {
 					fmt.Println(k, c, h)
 				}
 			}
